@@ -367,6 +367,8 @@ V("mp-handles-dropped", "break", ["C18"], MP, None, None, "process handles not r
 V("mp-no-raise-on-dead", "break", ["C18"], MP,
   '                    raise RuntimeError(f"Processes {dead} terminated before announcing their completion")', "                    pass",
   "dead worker detected but the loop goes on forever", "MultiprocessingSolver")
+V("mp-finished-not-recorded", "break", ["C11"], MP, None, None, "a worker that completed is not recorded as finished: later reported as dead", "solve", within="    def solve(self)",
+  edits=[{"old": "                finished[proc_idx] = True\n", "new": ""}])
 V("mp-neutral-rename", "neutral", ["C11", "C18", "C17"], MP, None, None, "list renamed",
   edits=[{"old": "processes", "new": "procs", "all": True}])
 
@@ -391,6 +393,9 @@ V("split-overlap", "break", ["C12"], PB, "            min_idx = max_idx + 1\n", 
 V("split-start-plus1", "break", ["C12"], PB, "        min_idx = shr_dom_min\n", "        min_idx = shr_dom_min + 1\n", "first part skips the minimum", "split")
 V("split-writes-self", "break", ["C12"], PB, "            problem.shr_domains_lst[var_idx] = [min_idx, max_idx]", "            self.shr_domains_lst[var_idx] = [min_idx, max_idx]",
   "the original problem is modified", "split")
+V("split-fast-path-self", "break", ["C12"], PB,
+  "        problems = []\n        min_idx = shr_dom_min\n", "        if split_nb == 1:\n            return [self]\n        problems = []\n        min_idx = shr_dom_min\n",
+  "a single part is the problem itself, not a copy", "split")
 V("split-neutral-temp", "neutral", ["C12"], PB, "            min_idx = max_idx + 1\n", "            nxt = max_idx + 1\n            min_idx = nxt\n", "temp")
 
 # ---------------------------------------------------------------------------------------------------- shaving
